@@ -519,7 +519,13 @@ func (r *c9Runner) evalClient(c *c9ClientRun, segFirst map[*c9AU]*c9AU) {
 				df := new(big.Rat).Sub(ratOf(got, 1), exp)
 				if df.Abs(df).Cmp(one) > 0 {
 					nTimeFails++
-					fail("", "track %d (%s, %d Hz): unit %d delivered with %s=%d, expected %s (written %s s minus the DTS %s s of the first delivered leading-track unit %d) +-1 tick",
+					tag := ""
+					if r.variant == "ts" && r.tracks[r.leadingIdx()].rate != 90000 && origin.Sign() < 0 && sec.Sign() >= 0 && df.Cmp(ratOf(2, 1)) < 0 {
+						// MPEG-TS led by a track that is not at 90 kHz, stream crossing zero: the muxer's conversion to
+						// 90 kHz truncates towards zero, i.e. rounds the (negative) origin up and this unit down
+						tag = "Fxx-ts-zero-crossing:"
+					}
+					fail(tag, "track %d (%s, %d Hz): unit %d delivered with %s=%d, expected %s (written %s s minus the DTS %s s of the first delivered leading-track unit %d) +-1 tick",
 						i, r.tracks[want[i]].codec, c.tracks[i].ClockRate, h.u.pay, name, got, exp.FloatString(3), sec.FloatString(6), origin.FloatString(6), hits[leadPos][0].u.pay)
 				}
 			}
